@@ -61,6 +61,8 @@ type scanSpec struct {
 	API       []*v1.Node  `json:"api,omitempty"` // nil: same objects as Nodes
 	Cloud     []SimASG    `json:"cloud"`
 	Tries     map[string]int `json:"tries,omitempty"`
+	// RefreshFails: the first k provider refreshes of the scan fail (RunOnce sleeps 5 s and rebuilds the provider after each)
+	RefreshFails int      `json:"refresh_fails,omitempty"`
 	Note      string      `json:"note,omitempty"`
 	Known     string      `json:"known_finding,omitempty"`
 }
@@ -388,7 +390,8 @@ func (w *world) scanOnce(setState bool) scanObs {
 	w.sim.mu.Lock()
 	w.sim.ResetCounters()
 	w.sim.record = true
-	w.sim.describeAsRefresh = 1
+	w.sim.describeAsRefresh = 1 + s.RefreshFails
+	w.sim.refreshFailN = s.RefreshFails
 	w.sim.curIdx = 0
 	w.sim.mu.Unlock()
 	obs.Start = time.Now()
@@ -450,7 +453,7 @@ func (w *world) scanOnce(setState bool) scanObs {
 // slowLimit: how much real time a scan may take before its real-clock tolerances (taint stamp within 3 s, margins of
 // 3 s around lock / max_node_age / lastScaleOut comparisons) are in doubt: 1.5 s, plus 2.5 s per fleet-mode group.
 func slowLimit(s *scanSpec) time.Duration {
-	d := 1500 * time.Millisecond
+	d := 1500*time.Millisecond + time.Duration(s.RefreshFails)*5200*time.Millisecond
 	for _, a := range s.Cloud {
 		if a.Template != "" {
 			d += 2500 * time.Millisecond
@@ -525,7 +528,7 @@ func (in *Interner) cpods(ps []*v1.Pod) string {
 }
 
 // canonTaintStamp rewrites a freshly written escalator taint value (the real clock's second) to the scan's second.
-func canonTaintStamp(n *v1.Node, nowSec int64) {
+func canonTaintStamp(n *v1.Node, nowSec int64, slack int64) {
 	if len(n.Spec.Taints) == 0 {
 		return
 	}
@@ -533,7 +536,7 @@ func canonTaintStamp(n *v1.Node, nowSec int64) {
 	if t.Key != "atlassian.com/escalator" {
 		return
 	}
-	if v, err := strconv.ParseInt(t.Value, 10, 64); err == nil && v >= nowSec && v <= nowSec+3 && strconv.FormatInt(v, 10) == t.Value {
+	if v, err := strconv.ParseInt(t.Value, 10, 64); err == nil && v >= nowSec && v <= nowSec+3+slack && strconv.FormatInt(v, 10) == t.Value {
 		t.Value = strconv.FormatInt(nowSec, 10)
 	}
 }
@@ -549,7 +552,7 @@ func (in *Interner) ccall(e JEntry, nowSec int64, preTaintCount map[string]int) 
 	case "update":
 		p := k.Payload.DeepCopy()
 		if k.Added { // only a freshly appended stamp reads the real clock
-			canonTaintStamp(p, nowSec)
+			canonTaintStamp(p, nowSec, in.stampSlack)
 		}
 		return fmt.Sprintf("(CK (KUpdate %s %s %s))", cz(in.ID(k.Name)), in.cnode(p), cbool(k.OK))
 	case "delete":
@@ -591,6 +594,7 @@ func canonTime(post, pre time.Time, preModel *int64, obs *scanObs) *int64 {
 
 func emitScanCase(s *scanSpec, obs *scanObs) (string, string, bool, string) {
 	in := NewInterner()
+	in.stampSlack = 6 * int64(s.RefreshFails)
 	nowNs := obs.NowNs
 	nowSec := s.BaseSec
 	groups := []string{}
